@@ -369,6 +369,15 @@ type StrSlice struct {
 	Arr Term
 	Len Term
 	Nil Term
+	Off Term // index of element 0 in Arr ("" = 0): s[lo:hi] shares the array
+}
+
+// at: the i-th element
+func (s *StrSlice) at(i Term) Term {
+	if s.Off.S != "" {
+		i = Add(s.Off, i)
+	}
+	return Select(s.Arr, i, SStr)
 }
 
 // ---------------------------------------------------------------------------
